@@ -536,6 +536,16 @@ func (r *Run) writeEvidence(violations int, seenKnown map[string]int) {
 			"harness: descriptor builder, plugin runner, artefact extractors, Json.render (Coq) and its Go decoder",
 		},
 	}
+	if r.Proof != nil && r.Tier == "thorough" {
+		if txt, err := CoqChk(); err != nil {
+			r.Proof.Err += " " + err.Error()
+		} else {
+			cov["coqchk"] = strings.Join(strings.Fields(txt), " ")
+			if !strings.Contains(txt, "Axioms: <none>") {
+				r.Proof.Err += " coqchk reports axioms: " + cov["coqchk"].(string)
+			}
+		}
+	}
 	if r.Proof != nil {
 		cov["obligations"] = r.Proof.Obligations
 		cov["discharged"] = r.Proof.Discharged
